@@ -91,11 +91,7 @@ impl MT941 {
         // Parse optional forward available balance (can be repetitive)
         let mut field_65_vec = Vec::new();
         while parser.detect_field("65") {
-            if let Ok(field) = parser.parse_field::<Field65>("65") {
-                field_65_vec.push(field);
-            } else {
-                break;
-            }
+            field_65_vec.push(parser.parse_field::<Field65>("65")?);
         }
         let field_65 = if field_65_vec.is_empty() {
             None
